@@ -140,294 +140,5 @@ Ltac poolF t :=
     [rewrite upd_eq; rewrite B; match goal with Hq : f_pcs _ t = _ |- _ => rewrite Hq end; simpl; tauto
     |rewrite upd_neq by assumption; apply B] end.
 
-Lemma stepF_get sg s t c s' : InvF s -> fstep sg s (FEGet t c) = Some s' -> InvF s'.
-Proof.
-  intros I H. simpl in H.
-  destruct (f_pcs s t) eqn:Hpc; try discriminate.
-  destruct (is_empty (cdesc c)) eqn:Hne0; try discriminate.
-  assert (Hh : fholding (f_pcs s t) = false) by (now rewrite Hpc).
-  assert (Hnm : fmain (f_pcs s t) = false) by (now rewrite Hpc).
-  assert (Hnw : fwindow (f_pcs s t) = false) by (now rewrite Hpc).
-  assert (Hnr : fres (f_pcs s t) = None) by (now rewrite Hpc).
-  assert (Hnb : In t (fbatch s) -> False).
-  { intro Hin. unfold fbatch in Hin. apply in_map_iff in Hin as ((t', c0) & E & Hin). simpl in E. subst t'.
-    destruct (f_it s I t c0 Hin) as [H1|[H1|[_ (r & [H1|H1])]]]; rewrite Hpc in H1; discriminate. }
-  assert (Hnp : In t (map fst (f_pending s)) -> False).
-  { intro Hin. apply in_map_iff in Hin as ((t', c0) & E & Hin). simpl in E. subst t'.
-    destruct (f_pe s I t c0 Hin) as [H1 _]. rewrite Hpc in H1. discriminate. }
-  destruct (f_pool s) as [rc|] eqn:Hpool; injection H as <-.
-  - destruct I. constructor; simpl.
-    all: try solve [fsolve].
-    all: try solve [apply it_keep; auto; intro; tauto].
-    all: try solve [intros t0 c0 Hin; assert (t0 <> t) by (intro; subst; apply Hnp; now apply in_fst in Hin);
-                    rewrite upd_neq by auto; auto].
-    all: try solve [intro Hx; destruct (f_tok0 Hx) as (A & B & C); repeat split; auto; intro t0; tcase t0 t; auto].
-    all: try solve [intro Hx; destruct (f_tom0 Hx) as [A|A]; auto; right; apply ex_keep; auto].
-    all: try solve [intros r Hx; apply ex_res_keep; auto].
-    + intros t0 c0 Hin. assert (t0 <> t) by (intro; subst; apply Hnp; eapply in_fst; eauto).
-      rewrite upd_neq by auto. exact (f_pe0 t0 c0 Hin).
-    + destruct f_pl0 as (hs & Hnd & Hin & Hp). rewrite Hpool in Hp. destruct Hp as [-> Hp].
-      exists (t :: hs). repeat split; try discriminate.
-      * constructor; auto. intro Hx. apply Hin in Hx. congruence.
-      * intros [<-|Hx]; [now rewrite upd_eq|]. tcase t0 t; auto. now apply Hin.
-      * intro Hx. tcase t0 t; [now left|]. right. now apply Hin.
-  - destruct (fpool_none s I Hpool) as (Hhold & Hi & Hpd).
-    destruct (f_emp s I Hi) as (Hc & _).
-    assert (Hnomain : forall t0, fmain (f_pcs s t0) = false).
-    { intro t0. destruct (fmain (f_pcs s t0)) eqn:E; auto. apply fmain_holding in E. now rewrite Hhold in E. }
-    destruct I. rewrite Hi, Hpd, Hc in *. constructor; simpl.
-    all: try solve [fsolve].
-    all: try solve [constructor].
-    all: try solve [intros t0 Hx; tcase t0 t; [discriminate|]; rewrite Hnomain in Hx; discriminate].
-    all: try solve [intros t0 Hx; tcase t0 t; [discriminate|]; try apply fpost_main in Hx; try apply fpre_main in Hx; rewrite Hnomain in Hx; discriminate].
-    all: try solve [intro Hx; destruct (f_tok0 Hx) as (A & B & C); congruence].
-    all: try solve [intros r Hx; apply ex_res_keep; auto].
-    all: try solve [intros t0 g Hx; tcase t0 t; [discriminate|]; exfalso; specialize (Hhold t0); rewrite Hx in Hhold; discriminate].
-    exists [t]. repeat split; try discriminate.
-    * constructor; [simpl; tauto|constructor].
-    * intros [<-|[]]. now rewrite upd_eq.
-    * intro Hx. tcase t0 t; [now left|]. rewrite Hhold in Hx. discriminate.
-Qed.
 
-(* a step of the main caller before complete(): its pc changes within
-   {Prep, Prepared, NeedPut, NeedDel}, committed may become true, the registry cell changes *)
-Lemma invF_pre s t p cm r st :
-  InvF s -> fpre (f_pcs s t) = true -> fpre p = true ->
-  (f_committed s = true -> cm = true) -> (fpost p = true -> cm = true) ->
-  InvF (mkF (f_pool s) cm (f_items s) (f_pending s) (f_gen s) (f_chans s) (upd (f_pcs s) t p) r st (f_verdict s)).
-Proof.
-  intros I Hm Hp Hc1 Hc2.
-  assert (Hmm : fmain (f_pcs s t) = true) by now apply fpre_main.
-  assert (Hpm : fmain p = true) by now apply fpre_main.
-  assert (Hin : In t (fbatch s)) by now apply (f_mn s I).
-  assert (Hni : f_items s <> []) by (unfold fbatch in Hin; destruct (f_items s); [destruct Hin|discriminate]).
-  assert (Hu : forall t0, fmain (f_pcs s t0) = true -> t0 = t) by (intros; eapply (f_mu s I); eauto).
-  assert (Hnw : fwindow (f_pcs s t) = false) by (destruct (f_pcs s t); try discriminate; reflexivity).
-  assert (Hnw' : fwindow p = false) by (destruct p; try discriminate; reflexivity).
-  assert (Hnr : fres (f_pcs s t) = None) by (destruct (f_pcs s t); try discriminate; reflexivity).
-  assert (Hnr' : fres p = None) by (destruct p; try discriminate; reflexivity).
-  destruct (f_qt s I t Hm) as (Q1 & Q2 & Q3).
-  destruct I. constructor; simpl.
-  all: try solve [fsolve].
-  all: try solve [apply it_keep; auto].
-  all: try solve [intros t0 c0 Hin0; destruct (f_pe0 t0 c0 Hin0) as [A B]; split; auto; tcase t0 t; auto; rewrite A in Hmm; discriminate].
-  all: try solve [intros t0 Hx; tcase t0 t; auto].
-  all: try solve [intros t1 t2 H1 H2; tcase t1 t; tcase t2 t; auto; symmetry; auto].
-  all: try solve [intros t0 g Hx; tcase t0 t; [rewrite Hx in Hpm; discriminate|eauto]].
-  all: try solve [intro Hx; congruence].
-  all: try solve [intros _; right; exists t; rewrite upd_eq; exact Hpm].
-  all: try solve [intro Hx; exfalso; apply Hni; exact Hx].
-  all: try solve [intros t0 Hx; tcase t0 t; auto; apply Hc1; eapply f_com0; eauto].
-  all: try solve [intros t0 r0 Hx; tcase t0 t; [congruence|eauto]].
-  all: try solve [intros r0 Hx; congruence].
-  destruct f_pl0 as (hs & A & B & C). exists hs. split; auto. split; auto.
-  intro x. tcase x t; [rewrite B, (fmain_holding _ Hmm), (fmain_holding _ Hpm); tauto | apply B].
-Qed.
-
-(* the main caller learns the result of its batch and enters complete() *)
-Lemma invF_enter s t r cm rg st :
-  InvF s -> fpre (f_pcs s t) = true -> fpost (f_pcs s t) = true \/ cm = true -> (f_committed s = true -> cm = true) ->
-  InvF (mkF (f_pool s) cm (f_items s) (f_pending s) (f_gen s) (f_chans s)
-            (upd (f_pcs s) t (FNotify r (length (f_items s) - 1))) rg st
-            (upd (f_verdict s) (f_gen s) (Some r))).
-Proof.
-  intros I Hm Hcm Hc1.
-  assert (Hmm : fmain (f_pcs s t) = true) by now apply fpre_main.
-  assert (Hin : In t (fbatch s)) by now apply (f_mn s I).
-  assert (Hni : f_items s <> []) by (unfold fbatch in Hin; destruct (f_items s); [destruct Hin|discriminate]).
-  assert (Hu : forall t0, fmain (f_pcs s t0) = true -> t0 = t) by (intros; eapply (f_mu s I); eauto).
-  assert (Hcm' : cm = true).
-  { destruct Hcm as [Hcm|]; auto. apply Hc1. eapply (f_com s I); eauto. }
-  destruct (f_qt s I t Hm) as (Q1 & Q2 & Q3).
-  destruct I. constructor; simpl.
-  all: try solve [fsolve].
-  all: try solve [apply it_keep; auto].
-  all: try solve [intros t0 c0 Hin0; destruct (f_pe0 t0 c0 Hin0) as [A B]; split; auto; tcase t0 t; auto; rewrite A in Hmm; discriminate].
-  all: try solve [intros t0 Hx; tcase t0 t; auto].
-  all: try solve [intros t1 t2 H1 H2; tcase t1 t; tcase t2 t; auto; symmetry; auto].
-  all: try solve [intros t0 g Hx; tcase t0 t; [discriminate|eauto]].
-  all: try solve [intro Hx; congruence].
-  all: try solve [intros _; right; exists t; rewrite upd_eq; reflexivity].
-  all: try solve [intro Hx; exfalso; apply Hni; exact Hx].
-  all: try solve [intros t0 Hx; tcase t0 t; auto].
-  - intros t0 Hx. tcase t0 t; [discriminate|]. apply fpre_main, Hu in Hx. congruence.
-  - intros t0 r0 Hx. rewrite upd_eq. tcase t0 t; [simpl in Hx; congruence|].
-    apply fres_window, fwindow_main, Hu in Hx. congruence.
-  - intros r0 Hx. rewrite upd_eq in Hx. injection Hx as <-. exists t. now rewrite upd_eq.
-  - destruct f_pl0 as (hs & A & B & C). exists hs. split; auto. split; auto.
-    intro x. tcase x t; [rewrite B, (fmain_holding _ Hmm); simpl; tauto | apply B].
-Qed.
-
-Lemma invF_frame s rg st : InvF s ->
-  InvF (mkF (f_pool s) (f_committed s) (f_items s) (f_pending s) (f_gen s) (f_chans s) (f_pcs s) rg st (f_verdict s)).
-Proof. intro I. destruct I. constructor; simpl; auto. Qed.
-
-Lemma stepF_main sg s e s' t :
-  InvF s -> fstep sg s e = Some s' ->
-  ((exists f, e = FEPrepare t f) \/ e = FECommit t \/ (exists f, e = FEPut t f) \/ (exists f, e = FEDel t f)) ->
-  InvF s'.
-Proof.
-  intros I H [[f ->]|[->|[[f ->]|[f ->]]]]; simpl in H.
-  - destruct (f_pcs s t) eqn:Hpc; try discriminate. injection H as <-.
-    unfold fset_pc. apply invF_pre; auto; try (rewrite Hpc; reflexivity). discriminate.
-  - destruct (f_pcs s t) as [|c0|g| |old|nw o|oi ap|r k|r|r|r] eqn:Hpc; try discriminate.
-    assert (Hp : fpre (f_pcs s t) = true) by (rewrite Hpc; reflexivity).
-    destruct old as [o|].
-    + destruct (apply_changes (idx o) (map snd (f_items s))) as [|new].
-      * injection H as <-. unfold fnotify. simpl. apply invF_enter; auto.
-      * destruct (negb (is_nil new) || sg).
-        -- injection H as <-. unfold fset_pc. simpl. apply invF_pre; auto.
-        -- destruct o; injection H as <-; [unfold fset_pc; simpl; apply invF_pre; auto|unfold fnotify; simpl; apply invF_enter; auto].
-    + injection H as <-. unfold fnotify. simpl. apply invF_enter; auto.
-  - destruct (f_pcs s t) as [|c0|g| |old|nw o|oi ap|r k|r|r|r] eqn:Hpc; try discriminate.
-    assert (Hp : fpre (f_pcs s t) = true) by (rewrite Hpc; reflexivity).
-    assert (Hq : fpost (f_pcs s t) = true) by (rewrite Hpc; reflexivity).
-    destruct f; injection H as <-.
-    + unfold fnotify. apply invF_enter; auto.
-    + unfold fafter_put. destruct sg; [unfold fnotify, fset_reg; simpl; apply invF_enter; auto|].
-      destruct o; [unfold fset_pc, fset_reg; simpl; apply invF_pre; auto; intro; eapply (f_com s I); eauto
-                  |unfold fnotify, fset_reg; simpl; apply invF_enter; auto].
-  - destruct (f_pcs s t) as [|c0|g| |old|nw o|oi ap|r k|r|r|r] eqn:Hpc; try discriminate.
-    assert (Hp : fpre (f_pcs s t) = true) by (rewrite Hpc; reflexivity).
-    assert (Hq : fpost (f_pcs s t) = true) by (rewrite Hpc; reflexivity).
-    destruct f; injection H as <-; unfold fnotify, fset_reg; simpl; apply invF_enter; auto.
-Qed.
-
-Lemma stepF_assign sg s t s' : InvF s -> fstep sg s (FEAssign t) = Some s' -> InvF s'.
-Proof.
-  intros I H. simpl in H.
-  destruct (f_pcs s t) as [|c|g| |old|nw o|oi ap|r k|r|r|r] eqn:Hpc; try discriminate.
-  assert (Hnm : fmain (f_pcs s t) = false) by (now rewrite Hpc).
-  assert (Hnw : fwindow (f_pcs s t) = false) by (now rewrite Hpc).
-  assert (Hnr : fres (f_pcs s t) = None) by (now rewrite Hpc).
-  assert (Hnb : In t (fbatch s) -> False).
-  { intro Hin. unfold fbatch in Hin. apply in_map_iff in Hin as ((t', c0) & E & Hin). simpl in E. subst t'.
-    destruct (f_it s I t c0 Hin) as [H1|[H1|[_ (r & [H1|H1])]]]; rewrite Hpc in H1; discriminate. }
-  assert (Hnp : In t (map fst (f_pending s)) -> False).
-  { intro Hin. apply in_map_iff in Hin as ((t', c0) & E & Hin). simpl in E. subst t'.
-    destruct (f_pe s I t c0 Hin) as [H1 _]. rewrite Hpc in H1. discriminate. }
-  assert (Hne_it : forall t0 c0, In (t0, c0) (f_items s) -> t0 <> t) by (intros t0 c0 Hin ->; apply Hnb; eapply in_fst; eauto).
-  assert (Hne_pe : forall t0 c0, In (t0, c0) (f_pending s) -> t0 <> t) by (intros t0 c0 Hin ->; apply Hnp; eapply in_fst; eauto).
-  destruct (f_committed s) eqn:Hc; injection H as <-.
-  - destruct I. constructor; simpl.
-    all: try solve [fsolve].
-    all: try solve [apply it_keep; auto; intro; tauto].
-    all: try solve [intro Hx; destruct (f_tok0 Hx) as (A & B & C); congruence].
-    all: try solve [intro Hx; destruct (f_tom0 Hx) as [A|A]; auto; right; apply ex_keep; auto].
-    all: try solve [intros r Hx; apply ex_res_keep; auto].
-    all: try solve [poolF t].
-    intros t0 g Hx. rewrite in_map_fst_snoc. tcase t0 t.
-    + injection Hx as <-. repeat split; auto. intro E. exfalso. lia.
-    + destruct (f_wt0 t0 g Hx) as (A & B & C). repeat split; auto.
-  - assert (Hnopost : forall t0, fpost (f_pcs s t0) = false).
-    { intro t0. destruct (fpost (f_pcs s t0)) eqn:E; auto. apply (f_com s I) in E. congruence. }
-    assert (Hit' : forall t0 c0, In (t0, c0) (f_items s ++ [(t, c)]) ->
-              upd (f_pcs s) t (FWait (f_gen s)) t0 = FWait (f_gen s) \/
-              fmain (upd (f_pcs s) t (FWait (f_gen s)) t0) = true \/
-              ((exists tm, fwindow (upd (f_pcs s) t (FWait (f_gen s)) tm) = true) /\
-               exists r, upd (f_pcs s) t (FWait (f_gen s)) t0 = FRet r \/ upd (f_pcs s) t (FWait (f_gen s)) t0 = FDone r)).
-    { intros t0 c0 Hin. apply in_snoc in Hin. destruct Hin as [Hin|Hin].
-      - apply (it_keep s t (FWait (f_gen s)) (f_it s I)) with (c0 := c0); auto; try (intro; tauto).
-      - injection Hin as -> ->. left. now rewrite upd_eq. }
-    assert (Hnd' : NoDup (map fst (f_items s ++ [(t, c)]))).
-    { apply NoDup_map_fst_snoc; [apply (f_it_nd s I)|exact Hnb]. }
-    assert (Hpe' : forall t0 c0, In (t0, c0) (f_pending s) ->
-              upd (f_pcs s) t (FWait (f_gen s)) t0 = FWait (S (f_gen s)) /\ ~ In t0 (map fst (f_items s ++ [(t, c)]))).
-    { intros t0 c0 Hin. rewrite upd_neq by eauto. destruct (f_pe s I t0 c0 Hin) as [A B]. split; auto.
-      rewrite in_map_fst_snoc. intros [Hx|Hx]; [auto|]. subst. eapply Hne_pe; eauto. }
-    assert (Hmn' : forall t0, fmain (upd (f_pcs s) t (FWait (f_gen s)) t0) = true -> In t0 (map fst (f_items s ++ [(t, c)]))).
-    { intros t0 Hx. tcase t0 t; [discriminate|]. rewrite in_map_fst_snoc. left. now apply (f_mn s I). }
-    assert (Hwt' : forall t0 g, upd (f_pcs s) t (FWait (f_gen s)) t0 = FWait g ->
-              (g <= S (f_gen s))%nat /\ (g = f_gen s -> In t0 (map fst (f_items s ++ [(t, c)]))) /\
-              (g = S (f_gen s) -> In t0 (map fst (f_pending s)))).
-    { intros t0 g Hx. rewrite in_map_fst_snoc. tcase t0 t.
-      - injection Hx as <-. repeat split; auto. intro E. exfalso. lia.
-      - destruct (f_wt s I t0 g Hx) as (A & B & C). repeat split; auto. }
-    destruct (is_nil (f_items s)) eqn:En.
-    + (* m.status == nil: a new status channel with the main status *)
-      assert (Ei : f_items s = []) by (destruct (f_items s); [reflexivity|discriminate]).
-      assert (Hnomain : forall t0, fmain (f_pcs s t0) = false).
-      { intro t0. destruct (fmain (f_pcs s t0)) eqn:E; auto. apply (f_mn s I) in E. unfold fbatch in E. rewrite Ei in E. destruct E. }
-      destruct I. constructor; simpl; auto.
-      all: try solve [fsolve].
-      all: try solve [intros r Hx; apply ex_res_keep; auto].
-      all: try solve [poolF t].
-      all: try solve [intros _; repeat split; auto using snoc_not_nil; intro t0; tcase t0 t; auto].
-      all: try solve [intros _; left; now rewrite upd_eq].
-      all: try solve [intro Hx; exfalso; eapply snoc_not_nil; eauto].
-      all: try solve [intros t0 Hx; tcase t0 t; [discriminate|]; try apply fpre_main in Hx; try apply fpost_main in Hx; rewrite Hnomain in Hx; discriminate].
-      all: try solve [intros g Hx; rewrite upd_neq by lia; auto].
-      all: try solve [intros g r Hx; tcase g (f_gen s); [discriminate|eauto]].
-      all: try solve [intros g Hx; tcase g (f_gen s); [discriminate|eauto]].
-      all: try solve [intros g Hx; tcase g (f_gen s); eauto].
-    + assert (Hni : f_items s <> []) by (destruct (f_items s); [discriminate|discriminate]).
-      destruct I. constructor; simpl; auto.
-      all: try solve [fsolve].
-      all: try solve [intros r Hx; apply ex_res_keep; auto].
-      all: try solve [poolF t].
-      all: try solve [intro Hx; destruct (f_tok0 Hx) as (A & B & C); repeat split; auto using snoc_not_nil; intro t0; tcase t0 t; auto].
-      all: try solve [intros _; destruct (f_tom0 Hni) as [A|A]; auto; right; apply ex_keep; auto].
-      all: try solve [intro Hx; exfalso; eapply snoc_not_nil; eauto].
-Qed.
-
-(* facts about the current status channel *)
-Lemma f_window_no_token s t : InvF s -> fmain (f_pcs s t) = true -> fbuf (f_chans s (f_gen s)) <> Some FMain.
-Proof. intros I Hm E. destruct (f_tok s I E) as (_ & _ & H). rewrite H in Hm. discriminate. Qed.
-
-Lemma f_token_fresh s : InvF s -> fbuf (f_chans s (f_gen s)) = Some FMain ->
-  fclosed (f_chans s (f_gen s)) = false /\ f_verdict s (f_gen s) = None.
-Proof.
-  intros I E. destruct (f_tok s I E) as (_ & _ & Hn).
-  assert (Hv : f_verdict s (f_gen s) = None).
-  { destruct (f_verdict s (f_gen s)) as [r|] eqn:Ev; auto. destruct (f_vn s I r Ev) as (t & Ht).
-    apply fres_window, fwindow_main in Ht. now rewrite Hn in Ht. }
-  split; auto. destruct (fclosed (f_chans s (f_gen s))) eqn:Ec; auto.
-  apply (f_vc s I) in Ec. congruence.
-Qed.
-
-(* a waiter of generation g <= gen gets its status and returns; the channel of g keeps its
-   closed flag and either keeps or loses its buffered value *)
-Lemma invF_wake s t g r ch' :
-  InvF s -> f_pcs s t = FWait g -> (g <= f_gen s)%nat ->
-  (g = f_gen s -> exists tm, fwindow (f_pcs s tm) = true) ->
-  (ch' = f_chans s \/ (fbuf (f_chans s g) <> Some FMain /\ ch' = upd (f_chans s) g (mkFC None (fclosed (f_chans s g))))) ->
-  InvF (mkF (f_pool s) (f_committed s) (f_items s) (f_pending s) (f_gen s) ch' (upd (f_pcs s) t (FRet r))
-            (f_reg s) (f_store s) (f_verdict s)).
-Proof.
-  intros I Hpc Hg Hwin Hch.
-  assert (Hnm : fmain (f_pcs s t) = false) by now rewrite Hpc.
-  assert (Hnw : fwindow (f_pcs s t) = false) by now rewrite Hpc.
-  assert (Hnr : fres (f_pcs s t) = None) by now rewrite Hpc.
-  assert (Hnp : forall c0, In (t, c0) (f_pending s) -> False).
-  { intros c0 Hin. destruct (f_pe s I t c0 Hin) as [E _]. rewrite Hpc in E. injection E as ->. lia. }
-  (* channel facts carried over *)
-  assert (Hb : forall g0, fbuf (ch' g0) = fbuf (f_chans s g0) \/ (g0 = g /\ fbuf (ch' g0) = None /\ fbuf (f_chans s g) <> Some FMain)).
-  { intro g0. destruct Hch as [->|[Hn ->]]; auto. tcase g0 g; auto. }
-  assert (Hc : forall g0, fclosed (ch' g0) = fclosed (f_chans s g0)).
-  { intro g0. destruct Hch as [->|[_ ->]]; auto. tcase g0 g; auto. }
-  destruct I. constructor; simpl.
-  all: try solve [fsolve].
-  - intros t0 c0 Hin. tcase t0 t.
-    + right; right. split; [|eauto].
-      destruct (f_it0 t c0 Hin) as [E|[E|[E _]]]; [|congruence|].
-      * rewrite Hpc in E. injection E as ->. destruct (Hwin eq_refl) as (tm & Htm). exists tm.
-        rewrite upd_neq; auto. intro; subst. congruence.
-      * destruct E as (tm & Htm). exists tm. rewrite upd_neq; auto. intro; subst. congruence.
-    + destruct (f_it0 t0 c0 Hin) as [E|[E|[(tm & Htm) E]]]; auto. right; right. split; auto.
-      exists tm. rewrite upd_neq; auto. intro; subst. congruence.
-  - intros t0 c0 Hin. assert (t0 <> t) by (intro; subst; eauto). rewrite upd_neq by auto. exact (f_pe0 t0 c0 Hin).
-  - intro Hx. destruct (Hb (f_gen s)) as [E|(E1 & E2 & _)]; [|congruence]. rewrite E in Hx.
-    destruct (f_tok0 Hx) as (A & B & C). repeat split; auto. intro t0. tcase t0 t; auto.
-  - intro Hx. destruct (f_tom0 Hx) as [A|A].
-    + destruct (Hb (f_gen s)) as [E|(E1 & E2 & E3)]; [left; congruence|]. subst g. congruence.
-    + right. apply ex_keep; auto.
-  - intros t0 Hx. tcase t0 t; [discriminate|]. destruct (f_qt0 t0 Hx) as (A & B & C). rewrite Hc. repeat split; auto.
-    destruct (Hb (f_gen s)) as [E|(E1 & E2 & _)]; congruence.
-  - intros g0 Hx. destruct (f_fut0 g0 Hx) as (A & B & C). rewrite Hc. repeat split; auto.
-    destruct (Hb g0) as [E|(E1 & E2 & _)]; congruence.
-  - intros g0 r0 Hx. destruct (Hb g0) as [E|(E1 & E2 & _)]; [rewrite E in Hx; eauto|congruence].
-  - intros g0 Hx. destruct (Hb g0) as [E|(E1 & E2 & _)]; [rewrite E in Hx; eauto|congruence].
-  - intros r0 Hx. apply ex_res_keep; auto.
-  - destruct f_pl0 as (hs & A & B & C). exists hs. split; auto. split; auto.
-    intro x. tcase x t; [rewrite B, Hpc; simpl; tauto | apply B].
-Qed.
+Ltac dI I := destruct I as [f_it0 f_it_nd0 f_pe0 f_pe_nd0 f_mn0 f_mu0 f_wt0 f_tok0 f_tom0 f_emp0 f_com0 f_qt0 f_fut0 f_vb0 f_vc0 f_vm0 f_vw0 f_vn0 f_pl0].
